@@ -58,6 +58,7 @@ func main() {
 		"non-trivial iff the entry changed the block. evaluations = cases executed on the real code.")
 	c.Assume("the schema lines of spec/wire and the generic transaction of spec/ledger/Ledger.tla describe the formats and the ledger (bound to the code by C11 and C01..C08)")
 	c.Assume("a worker process runs one case at a time, so runtime.MemStats.TotalAlloc deltas are the case's allocations; suspicious cases are re-measured alone three times")
+	c.Assume("the v1 block supplement is the node's own data: ValidateBlock checks it against the accumulator before any transaction sees it, so entries that change the CONTENT of supplement elements go through ValidateBlock only (entries about which elements it holds also go through ValidateTransaction)")
 	c.Assume("unstructured random bytes are not generated (that would be fuzzing, not model-based generation)")
 	t0 := time.Now()
 
@@ -290,6 +291,7 @@ func main() {
 	c.Cov("ledger_entry_transaction_pairs_not_applicable", ls.notApplicable)
 	c.Cov("ledger_mutants_accepted_applied_reverted", ls.appliedReverted)
 	c.Cov("ledger_accepted_mutant_classes", len(ls.accepted))
+	c.Cov("ledger_mutants_skipped_after_confirmed_hang_of_their_class", ls.skippedHung)
 	c.Cov("ledger_entry_point_returned_nil", ls.perEntryOK)
 	c.Cov("ledger_seconds", secL)
 	c.Cov("executions_per_entry_point", perEntry)
@@ -375,7 +377,12 @@ func superviseWorker(c *vlib.Ctx, cat *catalogue, j job, dir string) (units []un
 			fatal++
 			first := firstLines(stderr2, 6)
 			payload["outcome"], payload["stderr"] = "process killed", first
-			c.Violation(key, fmt.Sprintf("%s kills the process (not recoverable): %s", what, strings.ReplaceAll(firstLines(stderr2, 2), "\n", " | ")), payload)
+			vkey := key
+			if site := panicSite(stderr2); site != "" {
+				parts := strings.Split(key, "/")
+				vkey = parts[0] + "/" + site + "/" + parts[len(parts)-1]
+			}
+			c.Violation(vkey, fmt.Sprintf("%s kills the process (not recoverable): %s", what, strings.ReplaceAll(firstLines(stderr2, 2), "\n", " | ")), payload)
 			j.Skip = append(j.Skip, key)
 		} else {
 			fmt.Printf("NOTE: worker %s died at case (%d,%d) %s but the case alone does not kill a fresh process: %s\n", tag, unit, cs, key, firstLines(stderr, 3))
